@@ -3,7 +3,7 @@
     reach an acquisition/release function, address-taken functions), Gen_Calls (nm -u call set, indirect call sites),
     Gen_Wrapper / Gen_CfgLife (the wrapper's and the life cycle's skeletons). *)
 From Coq Require Import String ZArith List Bool.
-From Snoopy Require Import Lib.Skel Lib.ResFlow Wrapper.Model Residue.Model.
+From Snoopy Require Import Lib.Skel Lib.ResFlow Lib.ResFlowLoop Wrapper.Model Residue.Model.
 From Gen Require Import Gen_Resid Gen_Calls Gen_Wrapper Gen_CfgLife.
 Import ListNotations.
 Local Open Scope string_scope.
@@ -30,6 +30,13 @@ Proof. vm_compute. reflexivity. Qed.
 Theorem C16_balanced : forall e, In e (entries lib_fns ast_externals) -> ~ In (lf_name (e_fn e)) exempt ->
     forall o, In o (entry_outcomes e) -> exists s r, o = FDone s r /\ leaks s = [] /\ bad s = [] /\ sess s = 0%Z.
 Proof. exact (balanced lib_fns ast_externals call_cycles exempt lib_ok_gen). Qed.
+
+(** "every number of loop iterations": for every table, loop and state, whatever outcome the loop can produce after ANY number of iterations
+    (one element of the test, then one outcome of the body, per iteration) is among the outcomes computed for it, unless the computation
+    reports that its fuel ran out — which [C16_balanced] excludes, every outcome being a normal end *)
+Theorem C16_loops_explored : forall T c b s, ~ In FUEL (exec1 T (SLoop c b) s) ->
+    forall o, loop_rel (cond T c) (exec T b) s o -> In o (exec1 T (SLoop c b) s).
+Proof. exact while_complete. Qed.
 
 (** nothing is analysed away: a function without skeleton calls no resource function, directly or through library callees *)
 Theorem C16_unanalysed_touch_nothing : forall f, In f lib_fns -> lf_skel f = None ->
@@ -133,6 +140,7 @@ Proof. eexists. split; [left; reflexivity|]. vm_compute. tauto. Qed.
 
 Print Assumptions C16_no_state_calls.
 Print Assumptions C16_balanced.
+Print Assumptions C16_loops_explored.
 Print Assumptions C16_indirect_targets_neutral.
 Print Assumptions C16_holders.
 Print Assumptions C16_thread_record_paired.
